@@ -7,7 +7,8 @@ META = dict(
                 "updates) driven by a system-call-grain transcription of tar.Extractor.Extract for an escape: every archive "
                 "of <= 3 entries over 399 hostile names ('..', '.', empty/absolute/trailing-slash components, NUL) x 17 "
                 "bodies (dir/file/symlink to absolute, relative-up, inside and outside-file targets/other type, mode and "
-                "mtime set or unset), into 6 initial targets (absent, pre-populated with symlinks/dirs/files, the target "
+                "mtime set or unset), plus every archive of <= 4 (thorough 5) entries over one chain of names r, r/a, r/a/a "
+                "(an entry replacing an earlier same-named entry of another type, then entries below it), into 6 initial targets (absent, pre-populated with symlinks/dirs/files, the target "
                 "itself a symlink or a file); invariants Confined (nothing outside the target changes) and NoStrayTouch "
                 "(no system call ever touches an object elsewhere). A control configuration with the as-built deferred "
                 "directory metadata must find the escape. TLC-generated archives are written as real tar streams and "
@@ -31,7 +32,9 @@ def run(ctx):
                         "a NUL in a name is only expressible as a pax path record, which archive/tar rejects"]
     ctx.cov["rule"] = ("G: every archive accepted entry by entry by the ideal model within the generator bounds (<=2 entries: 20 "
                        "names incl. one per refusal class x 17 bodies x 6 initial targets; <=3 entries: 6 names x 9 bodies x 2 "
-                       "targets; thorough: larger) plus random archives <=10 entries; an entry refused on its name is offered "
+                       "targets; replacement chains: <=4 entries over the name chain r, r/a, r/a/a x 9 bodies x 2 targets (same-named "
+                       "entries of different types followed by entries below them); thorough: larger) plus random archives <=10 "
+                       "entries; an entry refused on its name is offered "
                        "with the 3 most harmful bodies. non-trivial = at least 2 headers consumed and the file system changed "
                        "at least twice")
     # build the harness while TLC works (go_build only logs; results are collected before the replay)
@@ -44,6 +47,18 @@ def run(ctx):
             built["err"] = e
     builder = threading.Thread(target=build)
     builder.start()
+    # replacement chains (longer archives over one chain of names) are generated while the other TLC runs go on
+    ctx.specdir(S)
+    chain = {}
+
+    def gen_chain():
+        try:
+            chain["behs"] = ctx.tlc_gen(S, "GenTarFS.tla", "GenTarFSChain.cfg" if ctx.quick else "GenTarFSChainBig.cfg",
+                                        timeout=6000, workers=4 if ctx.quick else 8)
+        except Exception as e:
+            chain["err"] = e
+    chainer = threading.Thread(target=gen_chain)
+    chainer.start()
     ctx.tlc_mc(S, "MCTarFS.tla", "MCTarFS.cfg" if ctx.quick else "MCTarFSBig.cfg", timeout=6000, coverage=not ctx.quick, deadlock=False)
     ctl = ctx.tlc_mc(S, "MCTarFS.tla", "MCTarFSAsBuilt.cfg", timeout=900, deadlock=False, expect_violation=True)
     if ctl["violated"] != "Confined":
@@ -55,8 +70,11 @@ def run(ctx):
     nsim = 30 if ctx.quick else 400
     sets.append(("sim", ctx.tlc_gen(S, "GenTarFS.tla", "GenTarFSSim.cfg", simulate=nsim, depth=12 * 10 + 1, timeout=3000)))
     builder.join()
-    if "err" in built:
-        raise built["err"]
+    chainer.join()
+    for d in (built, chain):
+        if "err" in d:
+            raise d["err"]
+    sets.insert(2, ("chain", chain["behs"]))
     binp = built["bin"]
 
     def nontrivial(b):
